@@ -221,7 +221,7 @@ def first_passage(n, out_edges, duration, initial_inf, initial_rec, tmin):
 
 
 # ------------------------------------------------------------ plain SIS (C13)
-def plain_sis(n, nbrs, duration_fn, delays_fn, initial_inf, tmin, tmax):
+def plain_sis(n, nbrs, duration_fn, delays_fn, initial_inf, tmin, tmax, flags=None):
     """The naive reference of C13.
 
     duration_fn(u, k) -> duration of the k-th infection of u (k = 0, 1, ..)
@@ -252,10 +252,16 @@ def plain_sis(n, nbrs, duration_fn, delays_fn, initial_inf, tmin, tmax):
     for u in initial_inf:
         if status[u] == "S":
             infect(tmin, None, u)
+    last = None
     while heap:
         t, _, kind, src, v = heapq.heappop(heap)
         if not t < tmax:
             break
+        if flags is not None and t > tmin and t == last:
+            # two queued happenings (attempts and/or recoveries) at the very same instant after
+            # tmin: the property quantifies over distinct event times only
+            flags["coincident"] = True
+        last = t
         if kind == "rec":
             status[v] = "S"
             events.append((t, "rec", v))
